@@ -165,6 +165,18 @@ def sweep(space, evaluate, init=None, chunk=None):
     return merged
 
 
+def _eval_listed(keys):
+    mod, space = _G["mod"], _G["space"]
+    out = []
+    for key in keys:
+        if hasattr(mod, "evaluate_key"):
+            f = mod.evaluate_key(key)
+        else:
+            f = mod.evaluate(space.payload_from_key(key)).get("fail")
+        out.append(f[0] if f is not None else None)
+    return out
+
+
 def minimal_cores(space, fails, evaluate=None, closed=True):
     """fails: list of (index, sig, detail).  Returns list of (text, sig, detail, case) that are
     minimal under symbol deletion among failing cases with the same signature.
@@ -271,15 +283,16 @@ def run_doc_check(mod, tier):
     # direct evaluation of every listed input (so every open record is verified in every run)
     listed_fail = {}
     listed_pass = []
-    for key, (fid, lsig) in led.by_key.items():
-        if hasattr(mod, "evaluate_key"):
-            f = mod.evaluate_key(key)
-        else:
-            f = mod.evaluate(space.payload_from_key(key)).get("fail")
+    _G["mod"] = mod
+    _G["space"] = space
+    keys = list(led.by_key)
+    verdicts = sum(pool.pmap(_eval_listed, [keys[i : i + 25] for i in range(0, len(keys), 25)]), [])
+    for key, f in zip(keys, verdicts):
+        fid = led.by_key[key][0]
         if f is None:
             listed_pass.append((fid, key))
         else:
-            listed_fail[key] = f[0]
+            listed_fail[key] = f
 
     min_keys = {m[0] for m in all_mins}
     unlisted = []
